@@ -402,8 +402,9 @@ class C04Property:
             "layer (A) theorems are conditional on the structure WignerRep (unitary, multiplicative, diagonal on z-rotations); "
             "instances are constructed for J = 0 and J = 1 only (J = 1 from SymPy's D^1 entries); for other spins the "
             "representation property of SymPy's Wigner-D is executed (oracle), not proved",
-            "arbitrary-depth trees: C04_full_statement is stated, not proved; proved are the two-level chains (three-body "
-            "decays) plus the kinematic lemmas that every deeper frame coincides",
+            "arbitrary trees: proved for spinless final states given the frame relation `Rotated` (established level by level by the "
+            "kinematic lemmas, not packaged as one induction over momentum trees); C04_full_statement (single topology with spinful "
+            "final states on arbitrary trees) is stated, not proved; two-level chains are proved at event level",
         ]
         chk.coverage["rule"] = (
             "evaluations = translator-validation points + line-protocol requests' cases + 2 x (events per oracle case); "
@@ -448,28 +449,33 @@ MANIFEST = {
                  "line protocol + independent numeric oracle on real models (always run)",
     "design_ref": "DESIGN.md §3 C04 (layers K, A, I, W), §2.6, §2.7, §2.9",
     "text": (
-        "Proof, layered; every run regenerates Gen/C04.lean from the working tree and the kernel re-checks 29 theorems. "
+        "Proof, layered; every run regenerates Gen/C04.lean from the working tree and the kernel re-checks the theorems of Props/C04.lean. "
         "(K) UNCONDITIONAL, all real arguments: RotZ/RotY additivity and BoostZ.RotZ = RotZ.BoostZ on the matrices regenerated from "
         "RotationZMatrix/RotationYMatrix/BoostZMatrix.as_explicit(); h(v) = Rz(Phi v)Ry(Theta v) maps z to v/|v| for every v != 0 with the "
         "regenerated Phi = atan2(py,px), Theta = acos(pz/|p|); the source's chain BoostZ(|p|/E).RotY(-Theta).RotZ(-Phi) takes a time-like "
         "subsystem to (m,0,0,0); key lemma: a proper rotation fixing z is Rz(delta); hence for every proper rotation R the production frame "
         "becomes R.h.Rz(-delta) and ALL child-frame momenta are rotated by RotZ(delta) with the same delta, polar angles unchanged, azimuths "
-        "shifted by delta, and the next helicity frame absorbs RotZ(delta) so that every deeper momentum and angle coincides. "
-        "(A) CONDITIONAL on the structure WignerRep (unitary, multiplicative, diagonal on z-rotations; hypotheses, not axioms), any dimensions: "
-        "|vV|^2 = |v|^2 for unitary V; the two-level chain amplitude transforms as A_M -> e^{i s delta} sum conj D_{MM'}(R) A_{M'}; single topology "
-        "invariant; coherent sum over any finite set of topologies invariant when the spectators are spinless. "
+        "shifted by delta, the next helicity frame absorbs RotZ(delta) so that every deeper momentum and angle coincides, and the frame of a "
+        "back-to-back second child turns by Rz(+delta). "
+        "(A) CONDITIONAL on a structure of hypotheses (not axioms) — WignerRep (unitary, multiplicative, diagonal on z-rotations; two-level chains, "
+        "any dimensions) resp. RepFamily (the same for a family of integer spins; arbitrary trees): |vV|^2 = |v|^2 for unitary V; the amplitude of a "
+        "tree of ANY depth and shape (cascade or two-resonance) with spinless final states transforms as A_m -> sum conj D_{mm'}(R) A_{m'} "
+        "(structural induction), so the unpolarised intensity of the coherent sum over any finite set of topologies is invariant; for two-level "
+        "chains also with a spectator of any spin (unit phase e^{i s delta}) and, single topology, under ANY sign convention between D-function "
+        "index and child helicity (this covers the pinned source's opposite-helicity convention and explains why every single topology is invariant). "
         "(I) UNCONDITIONAL: SymPy's Rotation.D(1,m,m',a,b,g).doit() (regenerated, 9 entries) equals U.Rz(a)Ry(b)Rz(g).U^dagger, so it is unitary, "
-        "diag(e^{-ia},1,e^{ia}) on z-rotations and multiplicative in the rotation; J=0 trivial. "
-        "(KA) events: for every proper rotation applied to the subsystem and child momenta the two-level (three-body) intensity is invariant "
-        "— single topology under ANY sign convention between D-function index and child helicity (this includes the pinned source's "
-        "opposite-helicity convention, explaining why every single topology is invariant), several topologies for spinless final states in the "
-        "helicity-state convention; unconditional instance for initial spin 1 with spin-0/spin-1 resonances (J/psi -> rho pi). "
+        "diag(e^{-ia},1,e^{ia}) on z-rotations and multiplicative in the rotation; with J=0 this gives the family F01, making the tree theorem "
+        "unconditional for all trees whose spins are 0 or 1 (C04_partial_J01_all_trees) and the event-level three-body theorems unconditional for "
+        "J/psi -> rho pi-type reactions (C04_partial_J1_two_topologies). "
+        "(KA) events: for every proper rotation applied to the subsystem and child four-momenta the two-level (three-body) intensity computed through "
+        "the regenerated Phi/Theta and matrices is invariant (single topology; several topologies for spinless final states). "
         "(W) the pinned source's convention for a decaying opposite-helicity child is proved to rephase the couplings by e^{2 i lambda delta}; "
         "the executable model (validated against the real code each run) classifies 0(12) as such a topology and (01)2,(02)1 as not. "
-        "PARTIAL: arbitrary-depth trees and two-resonance shapes are stated as C04_full_statement (a definition), not proved; spins other than 0,1 "
-        "rest on WignerRep; half-integer spins (double cover) are outside the algebraic layer. NUMERIC ONLY (oracle on the real code, every run): "
-        "4-body cascades, two-resonance topology, two 4-body cascades coherently, spin-1/2 reactions, AxisAngleAlignment and "
-        "DalitzPlotDecomposition models, and the non-invariance witnesses of the three known classes."
+        "PARTIAL: C04_full_statement (single topology with spinful final states on arbitrary trees) is a definition, not proved; the kinematic "
+        "lemmas establish the frame relation `Rotated` level by level but are not packaged into one induction over momentum trees; spins other than "
+        "0,1 rest on the representation hypotheses; half-integer spins (double cover) are outside the algebraic layer. NUMERIC ONLY (oracle on the real "
+        "code, every run): spin-1/2 reactions, photon final states, AxisAngleAlignment and DalitzPlotDecomposition models, 4-body real models "
+        "(cascades, two-resonance, two cascades coherently), and the non-invariance witnesses of the three known classes."
     ),
     "level_note": (
         "Trusted: Lean kernel + Mathlib (axioms propext, Classical.choice, Quot.sound); translator (core + c04_ext: ComplexSqrt read as the real "
